@@ -71,6 +71,37 @@ def is_nan_rat(r):
     return r[1] == 0
 
 
+BASE = 10000        # limb base of spec/BigInt.tla as instantiated in Estimators.tla
+
+
+def is_big(r):
+    return isinstance(r[0], list)
+
+
+def big_fraction(q):
+    """<<integer, natural>> of BigInt.tla ([[sign, limbs], limbs], little-endian base-10000 limbs) -> Fraction"""
+    from fractions import Fraction
+    (sign, nl), dl = q
+    num = sum(d * BASE ** i for i, d in enumerate(nl))
+    den = sum(d * BASE ** i for i, d in enumerate(dl))
+    return Fraction(sign * num, den)
+
+
+def close_big(x, q, rel=1e-7):
+    """code value vs the specification's arbitrary-precision rational: relative comparison (values may be tiny)"""
+    try:
+        x = float(x)
+    except Exception:      # noqa: BLE001
+        return False
+    if not is_big(q):
+        return close(x, q)
+    if math.isnan(x) or math.isinf(x):
+        return False
+    want = big_fraction(q)
+    w = float(want)
+    return abs(x - w) <= rel * abs(w) + 1e-300
+
+
 def close(x, rat, tol=1e-9):
     """code value x vs spec rational (den 0 = NaN)"""
     try:
